@@ -16,7 +16,7 @@
 //! the private items they expose.
 
 pub use crate::path::manager::verif::{
-    CachedPathInfo, FetchResult, Issue, MockFetcher, PathSetDriver, VerifConfig,
+    CachedPathInfo, FetchResult, HandleProbe, Issue, MockFetcher, PathSetDriver, VerifConfig,
 };
 
 /// DNS TXT address records: the private payload parser and record resolution of
